@@ -125,7 +125,7 @@ def gen_solver_plan(seed, tier, prop, knobs=None):
         tail.insert(rng.randrange(len(tail) + 1), {'op': 'set', 'what': 'objective'})
     ops = head + tail
     # ---- the run itself
-    nops = rng.randint(1, k['max_ops'])
+    nops = rng.randint(1, k['max_ops']) if k['max_ops'] >= 1 else 0
     for _ in range(nops):
         c = rng.random()
         if c < 0.5:
